@@ -79,7 +79,7 @@ def nontrivial_type(ty):
 def make_cases(ctx):
     cases = []
     r = ctx.sub_rng('sys')
-    g = Gen(r, {'neg_timedelta': True, 'nonfinite': True})
+    g = Gen(r, {'neg_timedelta': True, 'nonfinite': True, 'ext_names': 0.3, 'same_named_enums': 0.3})
     items = systematic_types(g, 3)
     d3 = [it for it in items if it[0].count('<') == 2]
     rest = [it for it in items if it[0].count('<') < 2]
@@ -126,7 +126,7 @@ def make_cases(ctx):
     n = 120 if ctx.tier == 'quick' else 2500
     for j in range(n):
         g2 = Gen(r2, {'neg_timedelta': True, 'nonfinite': r2.random() < 0.3, 'extreme_dates': False,
-                      'odd_offsets': r2.random() < 0.15})
+                      'odd_offsets': r2.random() < 0.15, 'ext_names': 0.3, 'same_named_enums': 0.3})
         nf = r2.choice([1, 2, 3, 5])
         tys = [g2.rand_type(r2.choice([1, 2, 3])) for _ in range(nf)]
         aliases = {k: r2.choice(['Alias', 'my-key', 'x.y', 'with space', "quo'te", 'K']) + str(k) * (k > 0) for k in range(nf) if r2.random() < 0.15}
@@ -146,11 +146,64 @@ def make_cases(ctx):
         if r2.random() < 0.15:
             cfg['tag_key'] = r2.choice(['kind', '__type__', 'tag'])
         cases.append({'root': root, 'value': g2.value(root), 'cfg': cfg, 'wizard': j % 2 == 0, 'labels': {}, 'src': 'random'})
-    return cases
+    # CatchAll declarations: unknown keys captured in a dict field come back under their own names; the values
+    # (JSON containers, and non-JSON values put there by hand) must be encoded and fresh.  Not in the Coq model
+    # (C10 owns catch-all): direct predicates only.
+    r4 = ctx.sub_rng('catchall')
+    for j in range(30 if ctx.tier == 'quick' else 300):
+        g4 = Gen(r4, {'ext_names': 0.3})
+        nf = r4.choice([1, 2, 3])
+        tys = [g4.rand_type(r4.choice([0, 1, 2])) for _ in range(nf)]
+        root = g4.root(tys, bases=['JSONWizard'] if j % 2 == 0 else [])
+        ca = g4.name()
+        root['fields'].insert(r4.randrange(len(root['fields']) + 1), {'name': ca, 'ty': {'t': 'any'}, 'alias': None, 'default': None, 'catchall': True})
+        root['fields'].sort(key=lambda f: (f['default'] is not None) or bool(f.get('catchall')))
+        val = g4.value(root)
+        items = []
+        for k in range(r4.choice([0, 1, 2, 3])):
+            vt = r4.choice([{'t': 'seq', 'k': 'list', 'e': {'t': 'int'}}, {'t': 'dict', 'k': 'dict', 'kt': {'t': 'str'}, 'vt': {'t': 'seq', 'k': 'list', 'e': {'t': 'str'}}},
+                            {'t': 'any'}, {'t': 'seq', 'k': 'set', 'e': {'t': 'int'}}, {'t': 'tok', 'k': 'datetime'}, {'t': 'tuple', 'es': [{'t': 'int'}, {'t': 'seq', 'k': 'list', 'e': {'t': 'int'}}]},
+                            {'t': 'seq', 'k': 'list', 'e': {'t': 'dict', 'k': 'dict', 'kt': {'t': 'str'}, 'vt': {'t': 'int'}}}])
+            items.append([{'v': 'str', 'x': 'zz%dUnknown' % k}, g4.value(vt)])
+        ci = [i for i, f in enumerate(root['fields']) if f.get('catchall')][0]
+        val['xs'][ci] = {'v': 'none'}
+        cases.append({'root': root, 'value': val, 'cfg': {'xf': r4.choice(XFS), 'dt': None}, 'wizard': j % 2 == 0, 'labels': {}, 'src': 'catchall',
+                      'catchall_items': {'v': 'dict', 'k': 'dict', 'kvs': items} if items or r4.random() < 0.5 else None, 'nomodel': True})
+    rh = ctx.sub_rng('history')
+    return [finish_case(c, rh) for c in cases]
 
 
 def strip(c):
-    return {k: c[k] for k in ('root', 'value', 'cfg', 'wizard')}
+    return {k: c[k] for k in ('root', 'value', 'cfg', 'wizard', 'pre_dump', 'catchall_items', 'nomodel') if k in c}
+
+
+def has_nested_data(ty, top=True):
+    if ty['t'] == 'data' and not top:
+        return True
+    subs = [ty[k] for k in ('e', 'kt', 'vt') if k in ty] + list(ty.get('es', []))
+    subs += [f['ty'] if isinstance(f, dict) else f[1] for f in ty.get('fields', [])]
+    subs += [ft for _, ft in ty.get('req', []) + ty.get('opt', [])]
+    return any(has_nested_data(s, False) for s in subs)
+
+
+def has_auto_tag(ty):
+    if ty.get('auto_tag'):
+        return True
+    subs = [ty[k] for k in ('e', 'kt', 'vt') if k in ty] + list(ty.get('es', []))
+    subs += [f['ty'] if isinstance(f, dict) else f[1] for f in ty.get('fields', [])]
+    subs += [ft for _, ft in ty.get('req', []) + ty.get('opt', [])]
+    return any(has_auto_tag(s) for s in subs)
+
+
+def finish_case(c, r):
+    """declaration-style and history axes shared by every stream: auto tags need the root setting; a class
+    model with nested dataclasses is, half of the time, run with the history "members dumped alone first".
+    (Only under the default key spelling: a member dumped alone caches ITS key spelling - open finding F10.)"""
+    if has_auto_tag(c['root']):
+        c['cfg']['auto_tags'] = True
+    if has_nested_data(c['root']) and c['cfg'].get('xf') in (None, 'CAMEL') and not c['cfg'].get('tag_key') and r.random() < 0.5:
+        c['pre_dump'] = True
+    return c
 
 
 def check_direct(c, res):
@@ -170,6 +223,10 @@ def check_direct(c, res):
         bad.append('result shares a mutable container with the instance')
     if not res.get('unchanged'):
         bad.append('instance changed by asdict/to_json')
+    if res.get('scribble_ok') is False:
+        bad.append('editing the result changed the instance (a container is shared)')
+    if 'pre_dump_err' in res:
+        bad.append('dumping a nested dataclass on its own raised %s' % res['pre_dump_err'].get('err'))
     if res.get('keys_scalar') and not res.get('json_ok'):
         bad.append('json.dumps rejects the result: %s' % res.get('json_err'))
     if c.get('wizard') and res.get('json_ok') and res.get('to_json_ok') is False:
@@ -227,6 +284,7 @@ def run(ctx):
             ctx.hist('field_depth', type_depth(f['ty']))
         ctx.hist('config', '%s/%s' % (c['cfg'].get('xf'), c['cfg'].get('dt')))
         ctx.hist('source', c['src'])
+        ctx.hist('history', 'members-alone-first' if c.get('pre_dump') else 'owner-first')
         bad = check_direct(c, res)
         if subminute(c['value']):
             ctx.hist('subminute_offset_cases', c['src'])
